@@ -95,6 +95,8 @@ type Gen struct {
 	rets         []retInfo
 	curInstr     ssa.Instruction
 	inQuant      int
+	seqElem      map[string]types.Type // element Go type of ghost sequences, by sort
+	lookupPos    token.Pos // source position contract names are resolved at (scoping)
 }
 
 type debugRef struct {
@@ -102,6 +104,7 @@ type debugRef struct {
 	idx  int
 	val  ssa.Value
 	addr bool
+	obj  types.Object
 }
 
 type loopInfo struct {
@@ -552,7 +555,7 @@ func (g *Gen) analyzeCFG() error {
 			if d, ok := in.(*ssa.DebugRef); ok {
 				if o := d.Object(); o != nil {
 					if _, isVar := o.(*types.Var); isVar {
-						g.debugVals[o.Name()] = append(g.debugVals[o.Name()], debugRef{b, i, d.X, d.IsAddr})
+						g.debugVals[o.Name()] = append(g.debugVals[o.Name()], debugRef{b, i, d.X, d.IsAddr, o})
 					}
 				}
 			}
